@@ -29,6 +29,11 @@ def add_noise(rng, w, lookalike=False):
             t.setdefault('body', [])
             t['body'] = [{'a': 'write', 'tok': tok, 'stream': stream,
                           'via': via, 'nl': rng.random() < 0.85}] + list(t['body'])
+    if rng.random() < 0.4:
+        # ... and when the interpreter of a layer subprocess shuts down,
+        # i.e. after its report
+        w.setdefault('env', {})['fd2_at_exit'] = rng.choice(
+            [['bye'], ['Exception ignored in: <x>', '  File "y", line 1'], ['a', 'b', 'c']])
     for l in w['layers'].values():
         if rng.random() < 0.3:
             k += 1
@@ -170,6 +175,16 @@ def run(chk, tier, seed, replay=None):
         c2 = {'id': w2['id'], 'world': w2, 'o': dict(c['o']), 'mode': 'cli'}
         cases += [c, c2]
         peers[c['id']] = peers[c2['id']] = [c['id'], c2['id']]
+    # nothing goes wrong, but the children's interpreters write to fd 2 when
+    # they shut down, i.e. after their report
+    qcases = corecheck.gen_cases(rng, graphs, 12 if tier == 'quick' else 120,
+                                 dict(prof_good, faults=(0.0, 0.0, 0.0)), 'q')
+    for c in qcases:
+        force_children(rng, c['world'], c['o'])
+        c['mode'] = 'cli'
+        c['world'].setdefault('env', {})['fd2_at_exit'] = rng.choice(
+            [['bye'], ['Exception ignored in: <x>', '  File "y", line 1'], ['a'] * 30])
+    cases += qcases
     for c in cases[:2] + tcases[:2]:
         chk.sample({'world': c['world'], 'options': c['o'], 'mode': c['mode'],
                     'trouble': c.get('trouble', '')})
